@@ -51,6 +51,7 @@ pub fn models(id: &str, tier: &str) -> Vec<HistoryModel> {
         alphabet: alphabet.clone(),
         seeds,
         all_proposers,
+        max_deviations: 0,
     };
     if id == "C04" {
         // the probe costs ~100 real deliveries per member and state: one level less than C01
@@ -121,7 +122,34 @@ pub fn models(id: &str, tier: &str) -> Vec<HistoryModel> {
         }
         v.push(base(cfgs, 2, 1, vec!["S0", "S3", "S8"], false));
     }
+    // deviating rounds (K >= 1): a member races with a commit of its own and loses; the
+    // committer gets its own commit back instead of applying it
+    v.extend(deviation_models(id, tier));
     v
+}
+
+/// History models with deviation bound K >= 1 (also run by C11, which owns the pending-commit
+/// rules the deviations exercise).
+pub fn deviation_models(id: &str, tier: &str) -> Vec<HistoryModel> {
+    let quick = tier == "quick";
+    let mon = if id == "C11" { Monitors { decrypt: true, ..Default::default() } } else { monitors(id) };
+    let alphabet = if id == "C08" { Alphabet::TreeShaping } else { Alphabet::Full };
+    let dev = |cfgs: Vec<WorldCfg>, di: usize, dg: usize, seeds: Vec<&'static str>, k: u8| HistoryModel {
+        cfgs,
+        mon: mon.clone(),
+        n_parties: 5,
+        depth_initial: di,
+        depth_gallery: dg,
+        alphabet: alphabet.clone(),
+        seeds,
+        all_proposers: false,
+        max_deviations: k,
+    };
+    if quick {
+        vec![dev(vec![WorldCfg::default()], 3, 1, vec![], 1), dev(vec![alt_cfg()], 2, 1, vec!["S0", "S3", "S4", "S8"], 1)]
+    } else {
+        vec![dev(vec![WorldCfg::default()], 3, 2, vec![], 2), dev(vec![alt_cfg()], 3, 1, vec!["S0", "S3", "S4", "S8", "S10"], 2)]
+    }
 }
 
 pub fn meta(id: &str, tier: &str) -> Meta {
@@ -138,11 +166,13 @@ pub fn meta(id: &str, tier: &str) -> Meta {
                     "depth_from_gallery_seeds": m.depth_gallery,
                     "seeds": if m.seeds.is_empty() { vec!["S0..S10"] } else { m.seeds.clone() },
                     "all_members_propose": m.all_proposers,
+                    "deviation_bound_K": m.max_deviations,
                 }))
                 .collect::<Vec<_>>()),
         ),
-        ("deviations", json!(0)),
+        ("deviations", json!(ms.iter().map(|m| m.max_deviations).max().unwrap_or(0))),
     ]);
+    let deviating = ms.iter().any(|m| m.max_deviations > 0);
     let (rule, goals): (&str, Vec<&'static str>) = match id {
         "C01" => ("every sequence of rounds (commit with by-value add/remove/psk/gce/custom/rekey, by-reference proposals, external commit with and without resync) up to the depth bound from every seed is executed on real members; after every accepted commit all members' (context, roster, exported tree, epoch authenticator, two exports) are compared through the epoch ledger and every ordered pair decrypts on forks; a distinct case = a distinct world shape (membership, tree skeleton, epochs, cached proposals)", vec!["commit-without-path", "tree-shrank", "tree-grew", "unmerged-leaf-under-parent", "interior-blank-leaf", "external-commit", "add-into-interior-blank"]),
         "C02" => ("same traversal; every HPKE seal recorded by the committer's provider while a commit is built must go to a key in the new tree's copath resolutions (reference parser) minus leaves added now, or to an added key package's init key; every message of every later round plus fresh application/proposal/commit traffic is offered to every retained ex-member state (processed its removal / never saw it) and every Welcome to every outsider: must be rejected; ex-members' authenticator/export compared with every later ledger entry", vec!["commit-with-path-secrets", "interior-blank-leaf"]),
@@ -153,9 +183,16 @@ pub fn meta(id: &str, tier: &str) -> Meta {
         "C09" => ("same traversal; after every commit, for every member each stored private key must open an HPKE seal to the public key of the corresponding node of the exported tree (reference parser), no key for a blank node, and after a commit with path all non-blank nodes on the committer's direct path carry keys absent from the previous tree", vec!["commit-without-path", "interior-blank-leaf", "unmerged-leaf-under-parent"]),
         _ => ("", vec![]),
     };
+    let mut rule = rule.to_string();
+    let mut goals = goals;
+    if deviating {
+        rule.push_str("; the runs with deviation bound K > 0 additionally take, at up to K rounds per path, a deviating round: another member first builds a commit of its own (with and without an Add) that stays pending and then receives the winning commit (its pending commit must be gone, everything else as in a normal round), or the committer receives its own commit back from the delivery service instead of calling apply_pending_commit");
+        goals.push("race");
+        goals.push("echo");
+    }
     Meta {
         level: "model_checking",
-        rule: rule.into(),
+        rule,
         assumptions: default_assumptions(),
         bounds,
         required_goals: goals,
